@@ -169,6 +169,9 @@ func checkC07(rc *Run) error {
 						if w.K == "scalar" && f == "style" && out.Rows[i].St == "double" && hasNonBMP(w.Val) {
 							continue // C05's known finding (the yaml library re-quotes text beyond the BMP), not an effect of the update
 						}
+						if w.K == "scalar" && f == "tag" && w.Val == "<<" && w.Tag == "" && out.Rows[i].Tag == "!!merge" {
+							continue // C05's known finding (`yq .` writes the merge key as `!!merge <<` too), not an effect of the update
+						}
 						bad = f + ":" + w.K + "-" + w.St
 						break
 					}
